@@ -21,10 +21,11 @@ use serde_json::{json, Value};
 use std::collections::HashMap;
 
 pub type Auth = Authenticator<TStore, TUv>;
+pub type Cl = passkey_client::Client<TStore, TUv, public_suffix::PublicSuffixList>;
 
 pub struct Run {
     pub sh: Sh,
-    pub auth: Option<Auth>,
+    pub client: Option<Cl>,
     pub cfg: Value,
     pub rng: rand::rngs::StdRng,
     /// salts / challenges of the current ceremony by abstract name
@@ -67,7 +68,7 @@ pub fn build_auth(cfg: &Value, creds: Vec<Passkey>, sh: &Sh) -> Auth {
 
 impl Run {
     pub fn new(seed: u64) -> Self {
-        Run { sh: new_shared(), auth: None, cfg: Value::Null, rng: util::rng(seed), salts: vec![], cdh: vec![], seen_ids: vec![] }
+        Run { sh: new_shared(), client: None, cfg: Value::Null, rng: util::rng(seed), salts: vec![], cdh: vec![], seen_ids: vec![] }
     }
 
     pub fn reset(&mut self, run: u64, cfg: &Value, store: &Value) {
@@ -90,7 +91,7 @@ impl Run {
             let s = self.sh.lock().unwrap();
             auth.store().snapshot(&s.dict)
         };
-        self.auth = Some(auth);
+        self.client = Some(passkey_client::Client::new(auth).allows_insecure_localhost(cfg["localhost"].as_bool().unwrap_or(false)));
         self.sh.lock().unwrap().log.push(json!({"ev": "Reset", "run": run, "cfg": cfg, "store": snap}));
     }
 
@@ -139,7 +140,7 @@ impl Run {
         Some(AuthenticatorPrfInputs { eval, eval_by_credential })
     }
 
-    fn descriptors(&mut self, names: &Value) -> Vec<PublicKeyCredentialDescriptor> {
+    pub fn descriptors(&mut self, names: &Value) -> Vec<PublicKeyCredentialDescriptor> {
         names
             .as_array()
             .unwrap()
@@ -216,7 +217,7 @@ impl Run {
         }
     }
 
-    fn set_env(&mut self, env: &Value) {
+    pub fn set_env(&mut self, env: &Value) {
         let mut s = self.sh.lock().unwrap();
         s.counted = 0;
         s.cancelled = false;
@@ -231,18 +232,18 @@ impl Run {
         };
     }
 
-    fn push(&self, v: Value) {
+    pub fn push(&self, v: Value) {
         self.sh.lock().unwrap().log.push(v);
     }
 
     /// which relying party's SHA-256 the hash equals
-    fn rp_of_hash(&self, h: &[u8]) -> String {
+    pub fn rp_of_hash(&self, h: &[u8]) -> String {
         let s = self.sh.lock().unwrap();
         s.dict.rp.iter().find(|(_, v)| rp::sha256(v.as_bytes())[..] == *h).map(|(n, _)| n.clone()).unwrap_or_else(|| "?".to_string())
     }
 
     /// which (secret, salt) pair of the given credential an output equals
-    fn prf_pair(&self, out: Option<&[u8]>, cred: Option<&Passkey>) -> Value {
+    pub fn prf_pair(&self, out: Option<&[u8]>, cred: Option<&Passkey>) -> Value {
         let Some(out) = out else { return json!({"sec": "absent", "salt": "absent"}) };
         let mut secrets: Vec<(&str, Vec<u8>)> = vec![];
         if let Some(h) = cred.and_then(|c| c.extensions.hmac_secret.as_ref()) {
@@ -252,7 +253,7 @@ impl Run {
             }
         }
         // secrets of other credentials in the store: an output keyed with one of them is a different failure
-        let others: Vec<Passkey> = self.auth.as_ref().map(|a| a.store().contents()).unwrap_or_default();
+        let others: Vec<Passkey> = self.client.as_ref().map(|c| c.authenticator().store().contents()).unwrap_or_default();
         for (sn, sec) in &secrets {
             for (name, salt) in &self.salts {
                 if rp::hmac_sha256(sec, salt)[..] == *out {
@@ -274,8 +275,8 @@ impl Run {
         json!({"sec": "unknown", "salt": "unknown"})
     }
 
-    fn end_default() -> Value {
-        json!({"ok": false, "err": 0, "flags": [], "ctr": {"hi": -1, "lo": 0}, "cred": "none", "user": "none", "rphash": "none",
+    pub fn end_default() -> Value {
+        json!({"ok": false, "err": 0, "werr": "none", "flags": [], "ctr": {"hi": -1, "lo": 0}, "cred": "none", "user": "none", "rphash": "none",
                "sigkey": "none", "at": false, "ed": false, "wf": true, "attid": "none", "idlen": 0, "fresh": true,
                "cose": {"labels": [], "kty": 0, "alg": 0, "crv": 0, "point": false},
                "stored": no_cred(), "keymatch": false, "fmt": "none",
@@ -283,8 +284,8 @@ impl Run {
                "client": no_client(), "leaks": []})
     }
 
-    fn stored(&self, id: &[u8]) -> Option<Passkey> {
-        self.auth.as_ref().unwrap().store().contents().into_iter().find(|p| p.credential_id[..] == *id)
+    pub fn stored(&self, id: &[u8]) -> Option<Passkey> {
+        self.client.as_ref().unwrap().authenticator().store().contents().into_iter().find(|p| p.credential_id[..] == *id)
     }
 
     /// Relying-party reading of a make_credential response.
@@ -378,7 +379,7 @@ impl Run {
         d
     }
 
-    fn err_end(code: u8) -> Value {
+    pub fn err_end(code: u8) -> Value {
         let mut d = Self::end_default();
         d["err"] = json!(code);
         d
@@ -391,13 +392,13 @@ impl Run {
         let api = c["api"].as_str().unwrap();
         let op = c["op"].as_str().unwrap();
         self.push(json!({"ev": "Begin", "d": {"api": api, "op": op, "req": c["req"], "env": c["env"]}}));
-        let mut auth = self.auth.take().unwrap();
+        let mut client = self.client.take().unwrap();
         let sh = self.sh.clone();
         match (api, op) {
             ("ctap2", "mc") => {
                 let req = self.mc_request(&c["req"]);
-                let out = util::catch(|| drive(Authenticator::make_credential(&mut auth, req), &sh));
-                self.auth = Some(auth);
+                let out = util::catch(|| drive(Authenticator::make_credential(client.authenticator_mut(), req), &sh));
+                self.client = Some(client);
                 let ev = match out {
                     Err(m) => json!({"ev": "Crash", "d": {"what": m}}),
                     Ok(Outcome::Hung) => json!({"ev": "Crash", "d": {"what": "hung"}}),
@@ -409,8 +410,8 @@ impl Run {
             }
             ("ctap2", "ga") => {
                 let req = self.ga_request(&c["req"]);
-                let out = util::catch(|| drive(Authenticator::get_assertion(&mut auth, req), &sh));
-                self.auth = Some(auth);
+                let out = util::catch(|| drive(Authenticator::get_assertion(client.authenticator_mut(), req), &sh));
+                self.client = Some(client);
                 let ev = match out {
                     Err(m) => json!({"ev": "Crash", "d": {"what": m}}),
                     Ok(Outcome::Hung) => json!({"ev": "Crash", "d": {"what": "hung"}}),
@@ -421,14 +422,14 @@ impl Run {
                 self.push(ev);
             }
             _ => {
-                self.auth = Some(auth);
+                self.client = Some(client);
                 crate::cerclient::ceremony(self, c);
             }
         }
         // the store as the next ceremony will find it
         let snap = {
             let s = self.sh.lock().unwrap();
-            self.auth.as_ref().unwrap().store().snapshot(&s.dict)
+            self.client.as_ref().unwrap().authenticator().store().snapshot(&s.dict)
         };
         let nnew = self.sh.lock().unwrap().dict.new_count;
         self.push(json!({"ev": "Snap", "d": {"snap": snap, "nnew": nnew}}));
